@@ -140,6 +140,9 @@ pub fn generate(out: &mut Out, rng: &Prng, thorough: bool, workdir: &std::path::
         let with2 = with.clone();
         let irng2 = irng.clone();
         let mut g = Gen {
+            slave_only_from_start: false,
+            slave_only_now: false,
+            bmca_since_slave_only: false,
             meas: super::gen_inst::MeasOracle::default(),
             ex: InstExec::new(),
             out: &mut base_sink,
